@@ -206,7 +206,7 @@ def c15(run):
                  name=f"MC_Huffman N={n} MaxCount={mc} (model-level capacity; the code's counters are 16 bits wide)")
     # pipeline V at the real size: histories of the 314-symbol tree up to and across the 65221-update capacity
     exe = run.harness("huff_rec")
-    pats = [("single", 65300), ("random", 65400)] + ([("roundrobin", 65300), ("sawtooth", 65300), ("random", 30000)] if run.thorough else [])
+    pats = [("single", 65300), ("random", 65400), ("fib", 62000)] + ([("roundrobin", 65300), ("sawtooth", 65300), ("random", 30000)] if run.thorough else [])
     from concurrent.futures import ThreadPoolExecutor
 
     def one(ps):
@@ -471,6 +471,34 @@ def c18(run):
         if mm:
             m["site"] = "C18." + mm.group(1)
             m["kind"] = "differs-between-environments"
+    _c18_scenarios(run)
+
+
+def _c18_scenarios(run):
+    """The serialisation scenarios of C01-C10 (the TLC-exported file sets, maps, bitmaps, tilesets, PRT values) once more, with the
+    allocator handing out memory filled with 0x00 / 0xFF (the other checks run with 0xBE) and, in the thorough tier, with automatic
+    variables pre-filled with a pattern: the bytes written must equal the specification's encoding in every one of these environments."""
+    rnd = {"Seed": vlib.SEED % 300, "NRand": 300 if run.thorough else 60}
+    gens = [("MC_Vol", dict(rnd, MaxFiles=3, Big="FALSE") if run.thorough else dict(rnd, MaxFiles=1, Big="FALSE"), VOL_INV),
+            ("MC_Clm", dict(rnd, MaxFiles=2 if run.thorough else 1), CLM_INV),
+            ("MC_Map", dict(rnd, Tier='"quick"'), MAP_INV),
+            ("MC_Bmp", dict(rnd, MaxWidth=12), BMP_INV),
+            ("MC_Prt", rnd, ("Export",))]
+    envs = [("heap00", dict(ASAN_OPTIONS=vlib.ASAN_ENV + ":malloc_fill_byte=0:max_malloc_fill_size=1048576"), "san"),
+            ("heapFF", dict(ASAN_OPTIONS=vlib.ASAN_ENV + ":malloc_fill_byte=255:max_malloc_fill_size=1048576"), "san")]
+    if run.thorough:
+        envs.append(("stackAA", dict(ASAN_OPTIONS=vlib.ASAN_ENV + ":malloc_fill_byte=85:max_malloc_fill_size=1048576"), "sanpat"))
+    for module, constants, inv in gens:
+        g = vlib.generate(module, constants, invariants=inv, workers=8)
+        run.add_model(g)
+        for ename, env, tag in envs:
+            exe = run.harness("scen") if tag == "san" else run.harness("scen", extra_flags=vlib.SAN_FLAGS + " -ftrivial-auto-var-init=pattern", tag=tag)
+            r = vlib.run_scenarios(exe, g["file"], run.pid, env=env)
+            run.traces += r["scenarios"]; run.steps += r["steps"]
+            for m in r["mismatches"]:
+                m["site"] = f"C18.{ename}/" + site_of(m)
+            run.add_mismatches(r["mismatches"])
+            run.part(f"{module} scenarios in environment {ename}", scenarios=r["scenarios"], steps=r["steps"], crashes=r["crashes"])
 
 
 def validate(run, module, log, site_prefix, constants=None, what="recorded execution"):
